@@ -11,7 +11,7 @@
    the input, which is exactly finding K09) and wall-clock time; both are decided by running
    the implementation on a 1 MiB stack / under CPU accounting. *)
 From Coq Require Import ZArith NArith List Bool.
-From Verif Require Import Lanes Common Values Numbers Scan Reader Configs ReaderInv GcdProofs FlagProofs NumProgress ReaderTerm.
+From Verif Require Import Lanes Common Values Numbers Scan Reader Configs ReaderInv GcdProofs FlagProofs NumProgress ReaderTerm FuelMono.
 Local Open Scope Z_scope.
 
 Theorem C02_gcd_terminates_and_is_gcd : forall sa sb,
@@ -52,6 +52,16 @@ Theorem C02_returns_value_xor_error_partial : forall c o handler xe xh sort m e 
   (has_value r <-> r_err r = EOk) /\ (r_eof r = true -> r_value r = None).
 Proof. exact read_doc_xor. Qed.
 
+(* the fuel of the model is only a termination device: a reader that returns with some fuel returns the same with
+   any larger fuel, and whatever was established for SOME fuel holds of the run of the model *)
+Theorem C02_more_fuel_changes_nothing : forall c o handler xe xh sort m e f k r,
+  read_doc c o handler xe xh sort m e f = r -> r <> OutOfFuel -> read_doc c o handler xe xh sort m e (f + k) = r.
+Proof. exact read_doc_fuel_irrelevant. Qed.
+Theorem C02_any_fuel_is_the_run : forall c o m len f r, In c all_cfgs ->
+  read_doc c o builtin_handler no_ext_equal no_ext_hash (isort c) m len f = r -> r <> OutOfFuel -> run_doc c o m len = r.
+Proof. exact any_fuel_is_the_run. Qed.
+
+Print Assumptions C02_any_fuel_is_the_run.
 Print Assumptions C02_gcd_terminates_and_is_gcd.
 Print Assumptions C02_gcd_loop_bound.
 Print Assumptions C02_returns_value_xor_error_partial.
